@@ -72,10 +72,56 @@ class Header(Stub):
         self.reads.append(k)
         return self.d[k]
 
+    def get(self, k, default=None):
+        self.reads.append(k)
+        return self.d.get(k, default)
+
+    def copy(self, *a, **k):
+        return self
+
+    def keys(self):
+        return list(self.d.keys())
+
+    def __iter__(self):
+        return iter(list(self.d.keys()))
+
+    def items(self):
+        return [(k, self[k]) for k in list(self.d.keys())]
+
+    def __len__(self):
+        return len(self.d)
+
 
 class HDU(Stub):
     def __init__(self, header):
         self.header = header
+
+
+class HDUList(Stub):
+    """what astropy.io.fits.open returns, as far as a reader of one header needs it: indexable, usable in a with block, closable"""
+
+    def __init__(self, hdus):
+        self.hdus = hdus
+        self.closed = False
+
+    def __getitem__(self, i):
+        return self.hdus[i]
+
+    def __len__(self):
+        return len(self.hdus)
+
+    def __iter__(self):
+        return iter(self.hdus)
+
+    def __enter__(self):
+        return self
+
+    def __exit__(self, *a):
+        self.closed = True
+        return False
+
+    def close(self, *a, **k):
+        self.closed = True
 
 
 def same_leaf(a, b):
@@ -127,7 +173,7 @@ def per_variant(ck, name, cfg):
               clause="the table header carries `HIERARCH Config <path>` for every leaf of the configuration that produced the run", replay_out=None if good else native_first(ck))
     # -- config_from_fits against the header init wrote
     reads, captured = [], {}
-    ov2 = {CFG.fits.open: lambda interp, filename, **k: [None, HDU(Header(meta, reads))], CFG.NssConfig: lambda interp, **c: captured.update(c) or "CONFIG"}
+    ov2 = {CFG.fits.open: lambda interp, filename, *a, **k: HDUList([HDU(Header({}, [])), HDU(Header(meta, reads))]), CFG.NssConfig: lambda interp, **c: captured.update(c) or "CONFIG"}
     it = harness.make_interp(ov2, max_paths=64)
     ps = it.explore(lambda: (CFG.config_from_fits, ["FILE.fits"], {}))
     ck.add_functions(it)
@@ -138,6 +184,11 @@ def per_variant(ck, name, cfg):
         o.note = str(p.exc)[:300]
         ck._undecided(o, lambda: native_first(ck))
         return
+    if not okt and not (p is not None and p.kind == "raise" and isinstance(p.exc, KeyError)):
+        # anything but a missing key on the symbolic side may be the header stub's limit: believed only if the real reader fails on a real file
+        nat = native_first(ck, name)
+        if not nat.get("violated"):
+            okt = None
     ck.direct("config:config_from_fits/post.total%s" % tag, okt, "post", "symbolic execution", note="" if okt else "%s: %s" % (p.kind if p else None, p.exc if p else None),
               clause="every header key the reader asks for was written for this configuration variant (no KeyError): stored results can always be reloaded",
               witness={"variant": name, "error": str(p.exc) if p is not None and p.kind == "raise" else None}, replay_out=None if okt else native_first(ck, name))
